@@ -183,6 +183,10 @@ def dec_value(d):
         return DPTArray(tuple(d["v"]))
     if t == "dptbinary":
         return DPTBinary(d["v"])
+    if t == "dc":
+        import importlib
+        mod = {"KNXDateTime": "xknx.dpt.dpt_19", "KNXTime": "xknx.dpt.dpt_10", "KNXDate": "xknx.dpt.dpt_11"}[d["cls"]]
+        return getattr(importlib.import_module(mod), d["cls"])(**{k: v for k, v in d["v"]})
     raise ValueError(t)
 
 
@@ -280,6 +284,32 @@ def generate(rng, tier):
                     v = V("int", str(int(x))) if float(x).is_integer() and abs(x) < 2**62 and rng.random() < 0.5 else enc_float(float(x))
                     yield {"target": "rv", "cls": "RemoteValueSensor", "cfg": {"value_type": d.dpt_number_str()}, "value": v,
                            "response": False}
+    # date/time dataclass instances through their remote values: every field alone (and pairs) at None / bounds / beyond one
+    # octet, the rest of the value well-formed - a validator that looks at a group of fields only when the whole group is given
+    # and a serialiser that copies each field on its own disagree on half-given groups
+    dt_ok = [("year", 2024), ("month", 6), ("day", 15), ("hour", 12), ("minutes", 30), ("seconds", 0)]
+    pools = {"year": [None, 1899, 1900, 2155, 2156, 0, 70000], "month": [None, 0, 1, 12, 13, 255, 256, 300, -1],
+             "day": [None, 0, 1, 31, 32, 255, 256, 300, -1], "hour": [None, 0, 23, 24, 25, 255, 256, -1],
+             "minutes": [None, 0, 59, 60, 255, 256, 300, -1], "seconds": [None, 0, 59, 60, 255, 256, 300, -1]}
+    def _dc(cls, fields):
+        return V("dc", [[k, v] for k, v in fields], cls=cls)
+    for f1, vals1 in pools.items():
+        for v1 in vals1:
+            yield {"target": "rv", "cls": "RemoteValueDateTime", "cfg": {}, "response": False,
+                   "value": _dc("KNXDateTime", [(k, v1 if k == f1 else v) for k, v in dt_ok])}
+            for f2 in pools:
+                if f2 == f1:
+                    continue
+                yield {"target": "rv", "cls": "RemoteValueDateTime", "cfg": {}, "response": bool(v1),
+                       "value": _dc("KNXDateTime", [(k, v1 if k == f1 else (None if k == f2 else v)) for k, v in dt_ok])}
+    for f1 in ("hour", "minutes", "seconds"):
+        for v1 in pools[f1][1:]:
+            yield {"target": "rv", "cls": "RemoteValueTime", "cfg": {}, "response": False,
+                   "value": _dc("KNXTime", [(k, v1 if k == f1 else v) for k, v in dt_ok[3:]])}
+    for f1 in ("year", "month", "day"):
+        for v1 in pools[f1][1:]:
+            yield {"target": "rv", "cls": "RemoteValueDate", "cfg": {}, "response": False,
+                   "value": _dc("KNXDate", [(k, v1 if k == f1 else v) for k, v in dt_ok[:3]])}
     vts = [None, "temperature", "percent", "string", "1.001", 5, "9.001", "time", "date", "color_rgb", "20.102", "percentV16", "angle",
            "4byte_float", "scene_number", "pulse_2byte", "14.019", "unknown-type", 99999]
     for target in ("gvw", "gvr", "mcp"):
